@@ -15,8 +15,8 @@ OPT = ['$TIMESTEP', 'TIMETICKS', '$BTIM', '$ETIM', '$DATE', '$PnV', '$PnG', '$Pn
 MONTHS = ['jan', 'feb', 'mar', 'apr', 'may', 'jun', 'jul', 'aug', 'sep', 'oct', 'nov', 'dec']
 
 GOOD = {
-    '$TIMESTEP': ['0.01', '1', '2.5e-2', ' 0.5 '],
-    'TIMETICKS': ['200', '10.0', '1e3'],
+    '$TIMESTEP': ['0.01', '1', '2.5e-2', ' 0.5 ', '0', '0.0', '-0.0', '0e0'],
+    'TIMETICKS': ['200', '10.0', '1e3', '0'],
     '$BTIM': ['12:00:01', '9:5:7', '17:45:23.5', '12:03:09:20', '00:00:00:0', '23:59:59:59', '08:15:30.25', '10:11:12:3', '01:02:03:1', '10:11:12:0.5', '05:06:07.05'],
     '$ETIM': ['12:03:07', '10:6:9', '18:00:00.75', '12:04:10:30', '00:10:00:15', '23:59:59', '07:00:00', '10:11:13:05', '10:11:13:2.25', '11:00:00.007'],
     '$DATE': ['02-OCT-2015', '2-oct-15', '15-Oct-02', '2015-OCT-31', '99-jan-05', '29-FEB-2016', '01-JAN-70'],
